@@ -11,7 +11,7 @@ import dendropy
 from dendropy.utility import error as dperror
 
 from mc import ref
-from mc.budget import time_limit, WallTimeout, budgeted, REPO_SRC
+from mc.budget import run_limited, budgeted, REPO_SRC
 
 ID = "C20"
 LEVEL = "fault_enumeration"
@@ -169,6 +169,16 @@ def declared_dims(fmt, text):
     return None, None
 
 
+def _looks_complete(fmt, text):
+    """the document still has its closing syntax (so a short matrix is not explained by truncation)"""
+    t = strip_comments(text).upper().split()
+    if fmt == "nexus":
+        return len(t) >= 2 and "".join(t[-2:]).replace(" ", "") in ("END;", ";END;") or (len(t) >= 1 and t[-1] in ("END;",))
+    if fmt == "phylip":
+        return text.endswith("\n")
+    return True
+
+
 def result_problems(fmt, text, res):
     """structural validity of returned objects"""
     trees, mats = [], []
@@ -198,30 +208,22 @@ def result_problems(fmt, text, res):
         if len(mats) == 1:
             m = mats[0]
             lens = [len(m[t]) for t in m]
-            if nchar is not None and any(l != nchar for l in lens):
-                return "matrix-dimensions", "declared NCHAR=%d but returned row lengths %s" % (nchar, lens)
-            if ntax is not None and len(lens) != ntax and fmt == "phylip":
-                return "matrix-dimensions", "declared %d sequences but returned %d rows" % (ntax, len(lens))
+            whole = "complete-document" if _looks_complete(fmt, text) else "truncated-document"
+            if nchar is not None and any(l > nchar for l in lens):
+                return "matrix-dimensions|row-longer-than-declared|" + whole, "declared NCHAR=%d but returned row lengths %s" % (nchar, lens)
+            if nchar is not None and any(l < nchar for l in lens):
+                return "matrix-dimensions|row-shorter-than-declared|" + whole, "declared NCHAR=%d but returned row lengths %s" % (nchar, lens)
+            if ntax is not None and len(lens) < ntax and fmt == "phylip":
+                return "matrix-dimensions|fewer-rows-than-declared|" + whole, "declared %d sequences but returned %d rows" % (ntax, len(lens))
             if ntax is not None and len(lens) > ntax:
-                return "matrix-dimensions", "declared NTAX=%d but returned %d rows" % (ntax, len(lens))
+                return "matrix-dimensions|more-rows-than-declared|" + whole, "declared NTAX=%d but returned %d rows" % (ntax, len(lens))
     return None, None
 
 
 def classify(fmt, epname, fn, text):
     """Returns (signature|None, message)."""
-    status = None
-    try:
-        with time_limit(0.15):
-            try:
-                res = fn(text)
-                status = ("ok", res)
-            except WallTimeout:
-                raise
-            except RecursionError as e:
-                status = ("exc", e)
-            except Exception as e:
-                status = ("exc", e)
-    except WallTimeout:
+    status = run_limited(lambda: fn(text), 0.15)
+    if status[0] == "timeout":
         st, v, n = budgeted(lambda: fn(text), BUDGET)
         if st == "hang":
             where = v.split(":")[0]
